@@ -192,6 +192,17 @@ def single_calls(rng, isa, sz, tier, writes_only=False, gi=0):
         SN = F + (M - 1) * St + 1 + rng.randint(0, 2); OP = (q + (1 if writes_only else 0)) % 4
         for rep in range(nrep):
             calls.append('rv::vsrc<%s,%s,%d,%d,%d,%d,%d,%d,%d>("%s");' % (T, itys[(q + 1) % 4], N, M, SN, F, St, OP, q % 2, idx_str(pick_indices(rng, M, N, rep % 3))))
+    # right-hand sides that are evaluated into a temporary first (the evaluating overload of each operator): the 1-D index view ...
+    for q in range(4 if tier == "quick" else 12):
+        M = [V + 1, 2 * V, max(V - 1, 2), 2 * V + 1][q % 4]; N = other(M + 1, {M})
+        kind = [0, 2, 3][(q + gi) % 3]
+        for rep in range(nrep):
+            calls.append('rv::staged1<%s,%s,%d,%d,%d,%d>("%s");' % (T, itys[(q + gi) % 4], N, M, q % 4, kind, idx_str(pick_indices(rng, M, N, rep % 3))))
+    if not writes_only:
+        # ... and the mask view (all four kinds: P%Q, trans(C), P%Q+D, a product reading the parent)
+        for q in range(4 if tier == "quick" else 16):
+            m_, n_ = [(2, 3), (3, 2), (2, V + 1), (3, 3)][(q + gi) % 4]
+            calls.append("rv::fstaged_seeded<%s,%d,%d,%d,%d>(%d,%du);" % (T, m_, n_, (q + gi + q // 4) % 4, q % 4, 4 if tier == "quick" else 10, rng.randrange(1 << 16)))
     if not writes_only:
         for q in range(2 if tier == "quick" else 6):
             N = [2 * V + 1, V][q % 2] if q < 2 else rng.randint(1, 2 * V + 3)
@@ -372,12 +383,19 @@ def run(tier, seed):
                                  "in (index x integer)", "ni (integer x index)", "if (index x fseq)", "fi (fseq x index)", "mask (boolean-mask view)",
                                  "ii:into-2d-view / flat3:into-3d-view / mask:into-3d-view (view as source of a range view)"],
                    "index_types": ["int", "long", "unsigned long (size_t)", "long long", "short (integer argument only)"],
+                   "rhs_kinds": "scalar, tensor, element-wise expression, view, and expressions that require evaluation (P%Q, trans(C), P%Q+D, a product reading the parent of the view) for the 1-D index view and the mask view, all five operators (division on real / rational types)",
                    "size_classes": "route = overload:action:{vector-only, vector+tail, tail-only, scalar-loop}; every overload x action x class is generated deterministically per group",
                    "widths": "V = 1 (FASTOR_DONT_VECTORISE), 2, 4 (sse2 / avx2 x 8-byte, sse2 x 4-byte), 8, 16 (avx2 / avx512)"})
 
 def sym_call_of(inp):
     d = symrun.kv(inp)
     T = "Sym" + d["sz"]
+    if inp.startswith("rstaged"):
+        call = 'rv::staged1<%s,%s,%s,%s,%d,%s>("%s");' % (T, ITY[d["ity"]], d["c"], d["n"], OPS.index(d["op"]), d["kind"], d["i0"])
+        return {"key": "replay", "header": HDR, "isa": d["cfg"], "defs": ["-DFASTOR_USE_VECTORISED_EXPR_ASSIGN"] if d.get("vea") == "1" else [], "calls": [call]}
+    if inp.startswith("fstaged"):
+        call = 'rv::fstaged<%s,%s,%s,%d,%s>("%s");' % (T, d["m"], d["n"], OPS.index(d["op"]), d["kind"], d["mask"])
+        return {"key": "replay", "header": HDR, "isa": d["cfg"], "calls": [call]}
     if inp.startswith("rctor2"):
         ity = [ITY.get(x, "short") for x in d["ity"].split("/")]
         call = 'rv::ctor2<%s,%s,%s,%s,%s,%s,%s,%s,%s,%s,%s,%s,%s,%s>("%s","%s");' % (T, ity[0], ity[1], d["r"], d["c"], d["m"], d["n"], d["sr"], d["sc"], d["f0"], d["s0"], d["f1"], d["s1"], d["dyn"], d["i0"], d["i1"])
